@@ -38,8 +38,10 @@ NWRAP = 3
 FN_DIFF0, FN_DIFF1, FN_DIFF2, FN_DIFF3, FN_QUIT, FN_BLOCKSIZE, FN_BITSHIFT, FN_QLPC, FN_ZERO = range(9)
 FN_NAMES = ["DIFF0", "DIFF1", "DIFF2", "DIFF3", "QUIT", "BLOCKSIZE", "BITSHIFT", "QLPC", "ZERO"]
 TYPE_S16HL, TYPE_S16LH, TYPE_AU2 = 3, 5, 8
+TYPE_AU1 = 0                       # the older mu-law type: no separate code for negative zero
+ULAW_TYPES = (TYPE_AU1, TYPE_AU2)
 PCM_TYPES = (TYPE_S16HL, TYPE_S16LH)
-SUPPORTED_TYPES = (TYPE_S16HL, TYPE_S16LH, TYPE_AU2)
+SUPPORTED_TYPES = (TYPE_S16HL, TYPE_S16LH, TYPE_AU2, TYPE_AU1)
 
 
 class ModelError(Exception):
@@ -242,6 +244,14 @@ class Model:
 
     # ---- values
     def to_internal(self, x):
+        if self.ftype == TYPE_AU1:
+            # same ranking of the codes, but the negative codes follow 0 directly (-1, -2, ...) and
+            # negative zero has no representation at all
+            mm = UlawMap.get(self.bitshift)
+            v = mm.inward.get(x)
+            if v is None or v == -1:
+                raise InvalidTrace("mu-law code %r not representable in the old mu-law type" % (x,))
+            return v if v >= 0 else v + 1
         if self.ftype == TYPE_AU2:
             v = UlawMap.get(self.bitshift).inward.get(x)
             if v is None:
@@ -252,6 +262,8 @@ class Model:
         return x >> self.bitshift
 
     def to_external(self, v):
+        if self.ftype == TYPE_AU1:
+            return UlawMap.get(self.bitshift).outward(v if v >= 0 else v - 1)
         if self.ftype == TYPE_AU2:
             return UlawMap.get(self.bitshift).outward(v)
         x = v << self.bitshift
@@ -478,7 +490,7 @@ class Encoder(Model):
 
 
 def sphere_header(ftype, nchan, nsamples, rate=8000):
-    if ftype == TYPE_AU2:
+    if ftype in ULAW_TYPES:
         fields = [("sample_n_bytes", "-i", "1"), ("sample_byte_format", "-s1", "1"),
                   ("sample_sig_bits", "-i", "8"), ("sample_coding", "-s27", "ulaw,embedded-shorten-v2.00")]
     else:
@@ -553,7 +565,7 @@ def parse_sphere(filebytes):
 
 def expected_pcm(model):
     """what a reader that expands mu-law returns: per-channel lists of 16-bit values"""
-    if model.ftype == TYPE_AU2:
+    if model.ftype in ULAW_TYPES:
         return [[ulaw_expand(c) for c in ch] for ch in model.out]
     return [list(ch) for ch in model.out]
 
@@ -667,9 +679,11 @@ def selftest():
 def _selftest_apply(e, k):
     c, t0 = e.chan, len(e.out[e.chan])
     raw = [_selftest_values(c, t0 + i) for i in range(e.blocksize)]
-    if e.ftype == TYPE_AU2:
+    if e.ftype in ULAW_TYPES:
         mm = UlawMap.get(e.bitshift)
         tg = [mm.nearest(x & 0xFF) for x in raw]
+        if e.ftype == TYPE_AU1:
+            tg = [mm.pos[0] if t == mm.minus_zero else t for t in tg]
     else:
         tg = [(x >> e.bitshift) << e.bitshift for x in raw]
     if k < 4:
